@@ -140,8 +140,7 @@ def rule_retry_loop(ctx: Ctx, out: Collector) -> None:
     else:
         h1, h2 = handlers
         t1 = sym.term(ctx.p, h1.type, g.root_inst) if h1.type is not None else None
-        first_ok = isinstance(t1, tuple) and t1[0] == 'or' and len(t1[1]) == 2 and isinstance(t1[1][0], tuple) \
-            and t1[1][0][0] == 'attr' and t1[1][0][2] == 'exceptions'
+        first_ok = _reads_setting(t1, 'exceptions')
         if not first_ok:
             problems.append(f'the first handler catches {unparse(h1.type) if h1.type is not None else "everything"}, not the '
                             f'policy\'s exceptions setting')
